@@ -178,8 +178,13 @@ func FlushAll() {
 		sort.Strings(keys)
 		sf.Nontrivial = keys
 		b, _ := json.Marshal(sf)
-		name := fmt.Sprintf("shard-%s-%s-%d.json", prop, Mode(), Shard())
-		_ = os.WriteFile(filepath.Join(out, name), b, 0o644)
+		// one file per process, written atomically: a native fuzz campaign runs many worker processes of this binary at
+		// once, each of them ends here
+		name := fmt.Sprintf("shard-%s-%s-%d-%d.json", prop, Mode(), Shard(), os.Getpid())
+		tmp := filepath.Join(out, "."+name+".tmp")
+		if err := os.WriteFile(tmp, b, 0o644); err == nil {
+			_ = os.Rename(tmp, filepath.Join(out, name))
+		}
 		e.mu.Unlock()
 	}
 }
